@@ -253,10 +253,17 @@ class StrX:
                         muts.append((bj, t))
         if muts:
             muts.sort(key=lambda x: (len([1 for y in muts if self.b.dominates(y[0], x[0])]), x[0]))
+            # appends form a chain while each dominates the next; what comes after a fork (appends under a condition)
+            # is not described: the known straight-line prefix is returned, followed by an opaque rest
+            k = len(muts)
             for i in range(len(muts) - 1):
                 if not self.b.dominates(muts[i][0], muts[i + 1][0]):
-                    return [("opaque", op)]
-            for bj, t in muts:
+                    k = i + 1
+                    break
+            if k < len(muts) and depth > 0:
+                return [("opaque", op)]
+            rest_unknown = k < len(muts)
+            for bj, t in muts[:k]:
                 last = _last(self.ix.callee(t))
                 if last == "push_str" and len(t["args"]) == 2:
                     base = base + self.string(t["args"][1], depth + 1)
@@ -266,7 +273,10 @@ class StrX:
                     ch = ch if ch is not None else (r[1] if r[0] == "const" else None)
                     base = base + ([("lit", chr(ch))] if ch is not None else [("opaque", t["args"][1])])
                 else:
-                    return [("opaque", op)]
+                    rest_unknown = True
+                    break
+            if rest_unknown:
+                base = base + [("opaque", None)]
         return merge(base)
 
     def _flatten(self, pcs, depth):
